@@ -155,6 +155,7 @@ structure Rule where
   ref : Nat                 -- reference block: no slot before it
   limit : Option Nat        -- slots must lie strictly before this block (relay entry timeout)
   mustNotWait : Bool        -- the result was already there before anyone waited
+  slot : Nat → Nat          -- the slot member `idx` has to wait for (derived from index + reference)
   stopBefore : Nat → Bool   -- `stopBefore slot`: a stop signal was observed before that slot
 
 def holds (r : Rule) (ms : List Mem) : Bool :=
@@ -163,7 +164,7 @@ def holds (r : Rule) (ms : List Mem) : Bool :=
     match m.await with
     | none => m.subs.isEmpty
     | some a =>
-      !r.mustNotWait && decide (r.ref ≤ a) &&
+      !r.mustNotWait && decide (a = r.slot m.idx) && decide (r.ref ≤ a) &&
       (match r.limit with | some t => decide (a < t) | none => true) &&
       m.subs.all (fun b => decide (a ≤ b)) && decide (m.subs.length ≤ 1) &&
       (if r.stopBefore a then m.subs.isEmpty else true)
@@ -176,24 +177,27 @@ def evStop (tie : List Kind) (s : Nat) (ev : Option Nat) : Bool :=
 def stopB (tie : List Kind) (s t : Nat) (ev : Option Nat) : Bool :=
   before tie (t, .timeout) (s, .slot) || evStop tie s ev
 
-def relayRule (n step start : Nat) (ev : Option Nat) (tie : List Kind) : Rule :=
+def relayRule (n step entry start : Nat) (ev : Option Nat) (tie : List Kind) : Rule :=
   { ref := start, limit := some (start + n * step), mustNotWait := false,
+    slot := fun idx => start + relayOffset idx n entry step,
     stopBefore := fun a => stopB tie a (start + n * step) ev }
 
-def bdkgRule (start : Nat) (reg : Option Bool) (ev : Option Nat) (tie : List Kind) : Rule :=
+def bdkgRule (step start : Nat) (reg : Option Bool) (ev : Option Nat) (tie : List Kind) : Rule :=
   { ref := start, limit := none, mustNotWait := (reg == some true),
+    slot := fun idx => start + stepOffset idx step,
     stopBefore := fun a => evStop tie a ev }
 
-def tbtcRule (cur : Nat) (already : Bool) (w : Wait) : Rule :=
-  { ref := cur, limit := none, mustNotWait := already, stopBefore := fun _ => w != .reached }
+def tbtcRule (stepBlocks cur : Nat) (already : Bool) (w : Wait) : Rule :=
+  { ref := cur, limit := none, mustNotWait := already,
+    slot := fun idx => cur + stepOffset idx stepBlocks, stopBefore := fun _ => w != .reached }
 
 /-- tBTC DKG result: the result is "already there" when the DKG left the awaiting-result state -/
 def tdkgRule (cur : Nat) (state : Option Nat) (w : Wait) : Rule :=
-  tbtcRule cur (state != some Gen.C47.awaitingResultState && state != none) w
+  tbtcRule Gen.C47.tbtcDkgSubmissionStep cur (state != some Gen.C47.awaitingResultState && state != none) w
 
 /-- inactivity claim: "already there" when the on-chain nonce moved past the claim's nonce -/
 def tinactRule (cur nonce chainNonce : Nat) (w : Wait) : Rule :=
-  tbtcRule cur (decide (chainNonce > nonce)) w
+  tbtcRule Gen.C47.tbtcInactivityStep cur (decide (chainNonce > nonce)) w
 
 /-! ## tBTC DKG result approval (`executeDkgValidation`): the seats one operator controls -/
 
@@ -216,8 +220,12 @@ def apprApprovals (tie : List Kind) (ev : Option Nat) (ws : List Nat) : List Nat
 
 /-- monitor: distinct approval blocks, the submitter's precedence respected, approvals only at
     awaited blocks and never after an observed approval -/
-def holdsAppr (p prec k : Nat) (tie : List Kind) (ev : Option Nat) (ws as : List Nat) : Bool :=
-  decide ws.Nodup && decide (ws.length = k) &&
+def holdsAppr (submitter p prec : Nat) (seats : List Nat) (tie : List Kind) (ev : Option Nat)
+    (ws as : List Nat) : Bool :=
+  -- each seat waits for the block derived from its index (observed as a sorted list: the
+  -- goroutines carry no member identity)
+  decide (ws = sortNat (seats.map (approvalBlock submitter p prec))) &&
+  decide ws.Nodup && decide (ws.length = seats.length) &&
   ws.all (fun w => decide (w = p) || decide (p + prec ≤ w)) &&
   decide as.Nodup && as.all (fun a => ws.contains a && !evStop tie a ev)
 
